@@ -13,7 +13,7 @@ LEVEL_NOTE = ("Lean theorem incremental_eq_batch: from any reachable state, fit 
               "correspondence on chunked histories and by batch-vs-chunked twins with random-stream positions copied across "
               "(bit-for-bit for count/sum and neighbourhood policies, 1e-9 for linear). Float rounding is outside the model.")
 
-PROFILE = {"name": "C06", "lp": G.CF_KINDS + G.LIN_KINDS, "np": [None, None, "radius", "knn", "lsh", "clusters"],
+PROFILE = {"name": "C06", "allow_scale": True, "lp": G.CF_KINDS + G.LIN_KINDS, "np": [None, None, "radius", "knn", "lsh", "clusters"],
            "weights": {"fit": 1, "pfit": 5, "query": 3, "add": 0.5, "rem": 0.3, "warm": 0}}
 
 
